@@ -846,7 +846,7 @@ func main() {
 	runner.Main(runner.Spec{
 		ID:    "C18",
 		Level: "fault_enumeration",
-		Rule: "correctness: P-256 x (a,b) over {0, ff.., 55.., aa.., text, single-bit values} (a stride of the pairs) and the other curves on boundary pairs: EvaluatorRound4 == SHA-256(a xor b); crash points: for EVERY subset of {msg1, garbler state, msg2, evaluator state, msg3} passed through Encode->Decode (2^5 restarts) the digest is unchanged; identity: Decode(Encode(x)) == x, documented sizes, re-encoding reproduces the bytes; faults: for each of the five encodings every truncation (all for small objects, ends + stride for large), one appended byte, single-bit flips (every bit of R1, GS and of the headers; strided bytes of R2, ES; R3: header, key, first/last 64 table labels, strided table labels, garbler inputs, hints, ciphertexts), length-field replacements and non-minimal varints; foreign session ids and curves. Oracle: no panic; rejected, or accepted with the documented size and canonical bytes and then the protocol ends with an error or the correct digest. " +
+		Rule: "correctness: P-256 x (a,b) over {0, ff.., 55.., aa.., text, single-bit values} (a stride of the pairs) and the other curves on boundary pairs: EvaluatorRound4 == SHA-256(a xor b); crash points: for EVERY subset of {msg1, garbler state, msg2, evaluator state, msg3} passed through Encode->Decode (2^5 restarts) the digest is unchanged; identity: Decode(Encode(x)) == x, documented sizes, re-encoding reproduces the bytes; faults: for each of the five encodings every truncation (all for small objects, ends + stride for large), one appended byte, single-bit flips (every bit of R1, GS and of the headers; strided bytes of R2, ES; R3: header, key, first/last 64 table labels, strided table labels, garbler inputs, hints, ciphertexts), length-field replacements and non-minimal varints; foreign session ids and curves (decoders, round functions and encoders); randomness sources with short reads; two sessions in one process under every interleaving (70) of their 4+4 round steps with all messages and states kept as bytes (no returned encoding may change later). Oracle: no panic; rejected, or accepted with the documented size and canonical bytes and then the protocol ends with an error or the correct digest. " +
 			"distinct_nontrivial = distinct cases that reached the oracle",
 		Assumptions: []string{
 			"documented sizes: 2-byte magic, 8-byte session id, 1-byte-prefixed curve name, fixed-width field elements (the table of TestPayloadSizesByCurve, extended by the same formula to P-384/P-521)",
